@@ -28,6 +28,11 @@ CHECKS = {
         technique='trace validation: (lexpos, lineno, colno) of every node and every _token_map entry of real trees validated by PosTrace.tla (LineCol machine) in TLC batches; which tokens a node owns is dictated by the ES5Grammar.tla derivation of the same program',
         text='For TLC-derived programs concretised with rich layout, every node position must be the LineCol position of its offset and must sit on the first token of the node or a terminal of its own production (ownership read off the derivation), and every token-map entry for a token present in the source must be an offset where that text occurs with consistent line/column; TLC gives a verdict per program naming the failing probe.',
         note='Trusted: pairing of dictated and real nodes (programs whose trees differ are skipped, that is C03), anchoring/substring facts computed in harness/c11.py and asserted by the trace spec; placeholders of omitted for-clauses, nodes without tokens and ASI semicolons exempt as the property states.'),
+    'C08': dict(
+        category='model_checking', design_ref='5 (C08)',
+        technique='trace validation: explicitly positioned StreamFragments of the pretty / minify / obfuscating printers validated by PosTrace.tla (LineCol machine) in TLC batches; programs and the set of ASI-supplied semicolons come from ES5Grammar.tla derivations',
+        text='For TLC-derived programs with rich layout (multi-line tokens, CR/CRLF/LS/PS, comments, with and without comment capture) every fragment with an explicit line:column must name a LineCol position of the source at which the source starts with the fragment token (original name when renamed, first comma of an elision run) and must name its own source file; semicolons the derivation marks as supplied by automatic insertion are exempt.  TLC gives a verdict per (program, printer) naming the failing fragment.',
+        note='Trusted: line:column to offset conversion and starts-with facts in harness/c08.py (re-validated / asserted by PosTrace.tla); programs whose real tree differs from the dictated one are skipped (C03/C04).  The check asks what the statement asks (text occurs there), not that it is the same occurrence.'),
 }
 
 NOT_YET = {}
